@@ -237,6 +237,7 @@ func (t *T0x0200AdditionExtension0x66) Parse(id uint8, content []byte) (Addition
 		t.T0x0200ExtensionSBBase.parse(content[5:40])
 		t.AlarmOrEventCount = content[40]
 		if len(content) == 40+int(t.AlarmOrEventCount)*9 {
+			t.AlarmOrEventList = nil // 复用同一个对象解析时 列表不能越来越长
 			for i := 0; i < int(t.AlarmOrEventCount); i++ {
 				start := 41 + i*9
 				t.AlarmOrEventList = append(t.AlarmOrEventList, T0x0200ExtensionTable22{
